@@ -13,7 +13,12 @@ PRELUDE = 'From RQ Require Import Model.Num Model.Portfolio Model.Analyser Model
 
 def gen(rng, tier):
     scn = acct_prop.gen_general(rng, tier, p_minute=0.1, p_div_capture=0.1, p_actions=0.4, p_delist=0.1, opts=dict(flows=rng.random() < 0.5, p_cancel=0.05))
-    scn['cfg']['mod']['sys_analyser'] = {'enabled': True, 'benchmark': rng.choice([None, W.INDEX, W.INDEX, W.STOCKS[0] if scn['cfg']['base']['frequency'] == '1d' else W.INDEX])}
+    bm = rng.choice([None, W.INDEX, W.INDEX, W.STOCKS[0] if scn['cfg']['base']['frequency'] == '1d' else W.INDEX])
+    if bm and rng.random() < 0.4:
+        # the other spellings of a one-instrument benchmark: "ID:weight" and {ID: weight}; its return is the ratio of closes whatever the weight
+        wgt = rng.choice([0.5, 2, 1, 0.25, 100])
+        bm = ('%s:%s' % (bm, wgt)) if rng.random() < 0.5 else {bm: wgt}
+    scn['cfg']['mod']['sys_analyser'] = {'enabled': True, 'benchmark': bm}
     nd = scn['world_opts'].get('ndays')
     r = rng.random()
     if r < 0.15:
@@ -35,6 +40,13 @@ def gen(rng, tier):
             scn['event_handler_fault'] = [rng.choice(['POST_SETTLEMENT', 'SETTLEMENT', 'POST_BAR', 'TRADE']), rng.randint(1, nd_run)]
         scn['expect_failure'] = True
     return scn
+
+
+def benchmark_id(spec):
+    """the instrument of a one-instrument benchmark specification"""
+    if isinstance(spec, dict):
+        return list(spec)[0]
+    return spec.split(':')[0] if spec else spec
 
 
 def benchmark_closes(cx, bm, sd, ed):
@@ -61,12 +73,12 @@ def analyse(scn, out):
     if ehf and any(m['k'] == 'user0' and m.get('ph') == 'event_handler' and m.get('bar') == ehf[1] for m in cx.trace):
         failed = True
     cx.keys.add(repr(('fail', failed, ehf[0] if ehf else None)))
-    cx.keys.add(repr(('R', failed, scn['cfg']['mod']['sys_analyser']['benchmark'], scn['end_i'] == scn['start_i'], cx.cfg['base']['frequency'])))
+    cx.keys.add(repr(('R', failed, repr(scn['cfg']['mod']['sys_analyser']['benchmark']), scn['end_i'] == scn['start_i'], cx.cfg['base']['frequency'])))
     if failed:
         if res:
             cx.hit('C18.failed_run_reports', {}, dict(keys=list(res.keys()) if hasattr(res, 'keys') else str(res)[:80]))
         return cx
-    bm = scn['cfg']['mod']['sys_analyser']['benchmark']
+    bm = benchmark_id(scn['cfg']['mod']['sys_analyser']['benchmark'])
     bm_before, bm_within = benchmark_closes(cx, bm, sd, ed) if bm else ([], [])
     bm_complete = (not bm) or (bool(bm_before) and len(bm_within) == n_range)
     if not bm_complete:
@@ -201,7 +213,7 @@ def work(item):
 _base = acct_prop.make(
     'C18', components=['report.'], clauses=['C18.'], gen=gen, analyser=analyse, prelude=PRELUDE,
     coq=['Model/Portfolio.v', 'Model/Analyser.v', 'Model/ModLife.v', 'Proofs/PortfolioFacts.v', 'Proofs/AnalyserFacts.v', 'Proofs/ModLifeFacts.v'],
-    rule=('random scenarios (any trading pattern, account mix, corporate actions, flows, benchmark none / index / stock, ranges down to one day, runs that '
+    rule=('random scenarios (any trading pattern, account mix, corporate actions, flows, benchmark none / index / stock spelled as id, "id:weight" or {id: weight}, ranges down to one day, runs that '
           'fail) with the analyser enabled; a case is one reported portfolio record against the recorder\'s end-of-day snapshot, the total return against '
           'the compounded closing net values, the benchmark return against the ratio of closes - replayed through Model/Analyser.v; distinct non-trivial = '
           'distinct (failed x benchmark x one-day x frequency) classes; trade table and account tables are compared row by row'),
